@@ -17,6 +17,7 @@ Sums are compared as multisets of contributions (commutativity/associativity of 
 """
 import itertools
 import os
+import re
 import random
 
 from vlib import stubs
@@ -274,23 +275,29 @@ def run_proof(rep, tier, which=("toposort", "backward_pass")):
                "Python semantics assumed by the E1a encoding: mathematical ints; list = (array, length) with pop/append/extend at the end; dict = (key set, value map) with get/pop/[]; "
                "generator output as a ghost sequence; `for` over a sequence / zip = indexed loop; tuples (v, flag) as pairs",
                "callee contracts used by backward_pass: toposort T1-T4 (proved here from its own source), add_outgrads AO-value/AO-own/AO-share (proved by E1b), node.vjp yields one cotangent per parent",
-               "adjoint recurrence G = path-sum of local derivatives (lemma L2, standard, not mechanised)")
+               "the adjoint recurrence that B3/B4 establish has exactly one solution on a DAG, the path sum of local derivatives, and is the transpose of the forward chain-rule recurrence "
+               "(lemmas/L2.lean: L2_unroll, L2_pathsum, dag_nilpotent, L2_adjoint - Lean 4 + Mathlib, re-checked in the thorough tier); "
+               "that the forward recurrence is the derivative of the traced program is the multivariate chain rule (calculus, not mechanised)")
     if tier == "thorough":
         import subprocess, shutil, time as _t
         from vlib.common import VERIF
         t0 = _t.time()
         lean = shutil.which("lean")
         if lean:
-            p = subprocess.run([lean, os.path.join(VERIF, "lemmas", "Lemmas.lean")], capture_output=True, text=True, timeout=1800)
-            okl = p.returncode == 0 and "error" not in (p.stdout + p.stderr)
-            rep.obligation("lemmas/Lemmas.lean:L1+reach_least+reach_rank+reach_pred", okl, "lean4+mathlib", _t.time() - t0, "Lean")
-            rep.extra["lean_lemmas"] = dict(checked=okl, seconds=round(_t.time() - t0, 1), output=(p.stdout + p.stderr)[:300])
-            if not okl:
-                rep.error("lemmas/Lemmas.lean does not check: " + (p.stdout + p.stderr)[:200])
+            rep.extra["lean_lemmas"] = {}
+            for lf, what in (("Lemmas.lean", "L1+reach_least+reach_rank+reach_pred"), ("L2.lean", "L2_unroll+L2_pathsum+dag_nilpotent+L2_adjoint")):
+                t0 = _t.time()
+                src = open(os.path.join(VERIF, "lemmas", lf)).read()
+                p = subprocess.run([lean, os.path.join(VERIF, "lemmas", lf)], capture_output=True, text=True, timeout=1800)
+                okl = p.returncode == 0 and "error" not in (p.stdout + p.stderr) and not re.search(r"(?m)^\s*(axiom|unsafe|@\[implemented_by)\b|\bsorry\b|\badmit\b", src)
+                rep.obligation(f"lemmas/{lf}:{what}", okl, "lean4+mathlib", _t.time() - t0, "Lean")
+                rep.extra["lean_lemmas"][lf] = dict(checked=okl, seconds=round(_t.time() - t0, 1), output=(p.stdout + p.stderr)[:300])
+                if not okl:
+                    rep.error(f"lemmas/{lf} does not check: " + (p.stdout + p.stderr)[:200])
         else:
             rep.note("lean not found: the lemma instances stay assumptions in this run")
     else:
-        rep.note("lemmas L1 / reach_least / reach_rank / reach_pred (lemmas/Lemmas.lean, Lean 4 + Mathlib) are re-checked in the thorough tier only (cold Mathlib import ~2-4 min)")
+        rep.note("lemmas L1 / reach_least / reach_rank / reach_pred (lemmas/Lemmas.lean) and L2 (lemmas/L2.lean, Lean 4 + Mathlib) are re-checked in the thorough tier only (cold Mathlib import ~2-4 min)")
     jobs = [("toposort", U.toposort, inv_toposort, FN_T, ("toposort",)), ("backward_pass", C.backward_pass, inv_backward, FN_B, ("backward",))]
     budget = 15000 if tier == "quick" else 60000
     for key, fn, SP, FN, bwhat in jobs:
@@ -331,7 +338,8 @@ def run_proof(rep, tier, which=("toposort", "backward_pass")):
             nv += sv.check() == z3.unsat
         rep.canary(f"{FN}:vacuity-probes({len(probes)})", nv == 0)
         if not failed and maxsecs > 0.3 * budget / 1000:
-            rep.error(f"{FN}: an obligation used {maxsecs:.1f}s of a {budget / 1000:.0f}s budget on a tree where it discharges: unstable proof")
+            # wall-clock time depends on machine load (16 busy cores slow a 1 s query several times): reported, never a verdict
+            rep.note(f"{FN}: an obligation used {maxsecs:.1f}s (wall) of a {budget / 1000:.0f}s budget although it discharged: slow query or loaded machine; see evidence extra.{key}_vcs")
         if failed:
             first = run_bounded(rep, tier, what=bwhat)
             if FN not in first:
